@@ -538,6 +538,8 @@ impl MWorld {
         } else if o.dead {
             bad = Some(format!("object #{id} handed out although a recycling / post_create step had failed, timed out or been cancelled for it"));
         }
+        let _ = self.orc.idle_stamp.remove(&id);
+        let o = &mut self.objs[id as usize];
         let prev_reported = o.last_reported;
         o.holder = Some(actor);
         o.handouts += 1;
